@@ -118,6 +118,10 @@ def run_shard(shard, ctx):
         for a, b in itertools.product(SEQS, SEQS):
             for which in (1, 2, 12):
                 run_case({"kind": "competing", "active_seq": a, "stale_seq": b, "which": which}, ctx)
+        # three copies of one key table: the newest may come first, in the middle or last in the object table
+        for seqs in itertools.permutations((5, 7, 9)):
+            for seqs2 in ((1, 2, 3), (3, 1, 2)):
+                run_case({"kind": "competing3", "seqs": list(seqs), "seqs2": list(seqs2)}, ctx)
     elif kind == "headers":
         for a, b in itertools.product(SEQS, SEQS):
             run_case({"kind": "headers", "seqs": [a, b]}, ctx)
@@ -194,6 +198,17 @@ def run_case(case, ctx):
             tree_expected = _merge_expected(tree, stale_tree, which, 2)
         nontrivial = True
         ctx.outcome("competing")
+    elif kind == "competing3":
+        tree = tree_from_shape(forests(5)[20], 2)
+        gen = [tree, _revalue(tree), _revalue(_revalue(_revalue(tree)))]  # three generations with pairwise different values
+        gen[2] = _revalue2(tree)
+        sq = case["seqs"]  # sequence numbers of generation 0 (written as the "active" copy), 1 and 2 of key table 1
+        positions = {0: [0, 99], 1: [0, 0], 2: [99, 99]}[case["seqs2"][0] % 3]
+        kw = dict(ntables=2, table_seq=sq[0], stale={1: [(sq[1], gen[1]), (sq[2], gen[2])]}, stale_positions=positions)
+        winner = gen[sq.index(max(sq))]
+        tree_expected = _merge_expected(tree, winner, [1], 2)
+        nontrivial = True
+        ctx.outcome("competing")
     elif kind == "headers":
         tree = tree_from_shape(forests(3)[2], 0)
         kw = dict(seqs=tuple(case["seqs"]))
@@ -210,6 +225,8 @@ def run_case(case, ctx):
     img = B.build(tree, **kw)
     expected = B.plain(tree)
     if kind == "competing" and case["active_seq"] < case["stale_seq"]:
+        expected = B.plain(tree_expected)
+    if kind == "competing3":
         expected = B.plain(tree_expected)
     if kind == "headers":
         a, b = case["seqs"]
@@ -265,6 +282,27 @@ def _revalue(tree):
             out[k] = (t, "".join("Q" if ord(c) < 0x10000 else c for c in v))
         else:
             out[k] = (t, bytes((b ^ 0x5A) for b in v))
+    return out
+
+
+def _revalue2(tree):
+    """A third value set, different from the tree and from _revalue(tree), same byte sizes."""
+    out = {}
+    for k, (t, v) in tree.items():
+        if t == B.T_NODE:
+            out[k] = (t, _revalue2(v))
+        elif t == B.T_INT:
+            out[k] = (t, -31337)
+        elif t == B.T_UINT:
+            out[k] = (t, 31337)
+        elif t == B.T_DBL:
+            out[k] = (t, -8.5)
+        elif t == B.T_BOOL:
+            out[k] = (t, v)
+        elif t == B.T_STR:
+            out[k] = (t, "".join("W" if ord(c) < 0x10000 else c for c in v))
+        else:
+            out[k] = (t, bytes((b ^ 0xA5) for b in v))
     return out
 
 
